@@ -32,29 +32,30 @@ VecPairs(n) == IF n = 3 THEN VecPairs3 ELSE VecPairs2
 Offsets(n) == IF n = 3 THEN {<<0, 0, 0>>, <<1, -2, 3>>} ELSE {<<0, 0>>, <<1, -2>>}
 Probes(n)  == IF n = 3 THEN {<<1, 0, 0>>, <<0, 1, -1>>, <<2, 1, 1>>} ELSE {<<1, 0>>, <<-1, 2>>}
 
-VARIABLES kind, A, B, u, v
-vars == <<kind, A, B, u, v>>
+\* (state variables must not share a name with an operator parameter of LinAlgebra: TLC then stops caching constants)
+VARIABLES sKind, sA, sB, sU, sV
+vars == <<sKind, sA, sB, sU, sV>>
 
-Init == /\ kind = "one" /\ A \in M3 \cup M2 /\ B = A /\ u = ZeroV(Len(A)) /\ v = ZeroV(Len(A))
-Next == /\ kind = "one" /\ Thin(A)
-        /\ UNCHANGED A
-        /\ \/ \E X \in Partner(Len(A)) : B' = X /\ kind' = "pair" /\ UNCHANGED <<u, v>>
-           \/ \E uv \in VecPairs(Len(A)) : u' = uv[1] /\ v' = uv[2] /\ kind' = "vec" /\ UNCHANGED B
+Init == /\ sKind = "one" /\ sA \in M3 \cup M2 /\ sB = sA /\ sU = ZeroV(Len(sA)) /\ sV = ZeroV(Len(sA))
+Next == /\ sKind = "one" /\ Thin(sA)
+        /\ UNCHANGED sA
+        /\ \/ \E X \in Partner(Len(sA)) : sB' = X /\ sKind' = "pair" /\ UNCHANGED <<sU, sV>>
+           \/ \E uv \in VecPairs(Len(sA)) : sU' = uv[1] /\ sV' = uv[2] /\ sKind' = "vec" /\ UNCHANGED sB
 Spec == Init /\ [][Next]_vars
 
 OneLaws ==
-  kind = "one" =>
-    /\ LawAdjoint(A) /\ LawLaplace(A) /\ LawTranspose(A) /\ LawInverse(A) /\ LawVolume(A) /\ LawColumns(A)
-    /\ \A t \in Offsets(Len(A)) : LawAffInverse(Aff(A, t))
+  sKind = "one" =>
+    /\ LawAdjoint(sA) /\ LawLaplace(sA) /\ LawTranspose(sA) /\ LawInverse(sA) /\ LawVolume(sA) /\ LawColumns(sA)
+    /\ \A t \in Offsets(Len(sA)) : LawAffInverse(Aff(sA, t))
 PairLaws ==
-  kind = "pair" =>
-    /\ LawDetMul(A, B) /\ LawMulTranspose(A, B) /\ LawAdjMul(A, B)
-    /\ \A x \in Probes(Len(A)) : LawMulApply(A, B, x)
-    /\ \A s \in Offsets(Len(A)), t \in Offsets(Len(A)), x \in Probes(Len(A)) :
-          LawAffCompose(Aff(A, s), Aff(B, t), x) /\ LawAffParts(Aff(A, s), x)
-    /\ (Len(A) = 3 /\ B \in Rot) => \A c \in Probes(3) : LawAffAbout(c, B)
+  sKind = "pair" =>
+    /\ LawDetMul(sA, sB) /\ LawMulTranspose(sA, sB) /\ LawAdjMul(sA, sB)
+    /\ \A x \in Probes(Len(sA)) : LawMulApply(sA, sB, x)
+    /\ \A s \in Offsets(Len(sA)), t \in Offsets(Len(sA)), x \in Probes(Len(sA)) :
+          LawAffCompose(Aff(sA, s), Aff(sB, t), x) /\ LawAffParts(Aff(sA, s), x)
+    /\ (Len(sA) = 3 /\ sB \in Rot) => \A c \in Probes(3) : LawAffAbout(c, sB)
 VecLaws ==
-  kind = "vec" => LawLinear(A, u, v) /\ LawNormal(A, u, v)
+  sKind = "vec" => LawLinear(sA, sU, sV) /\ LawNormal(sA, sU, sV)
 
 ASSUME LawGroup
 ASSUME LawAxisTurns
